@@ -1,6 +1,7 @@
 pub mod c01;
 pub mod c03;
 pub mod c05;
+pub mod c06;
 pub mod c07;
 pub mod c17;
 pub mod c19;
@@ -14,6 +15,7 @@ pub fn dispatch(name: &str, args: &[String]) -> i32 {
 		"c01" => c01::run(args),
 		"c03" => c03::run(args),
 		"c05" => c05::run(args),
+		"c06" => c06::run(args),
 		"c07" => c07::run(args),
 		"c17" => c17::run(args),
 		"c19" => c19::run(args),
@@ -40,6 +42,7 @@ fn replay(args: &[String]) -> i32 {
 		"c01" => c01::replay(&v["replay"]),
 		"c03" => c03::replay(&v["replay"]),
 		"c05" => c05::replay(&v["replay"]),
+		"c06" => c06::replay(&v["replay"]),
 		"c07" => c07::replay(&v["replay"]),
 		"c17" => c17::replay(&v["replay"]),
 		"c19" => c19::replay(&v["replay"]),
